@@ -1,19 +1,36 @@
 #!/bin/sh
-# usage: tools/thorough_snapshot.sh [tier]  — copies /verif (without build output) to /tmp/vsnap, points its
-# crates at the copy, and runs every check's thorough (or given) tier there, so that work can go on in
-# /verif meanwhile. /repo is used as it is (keep it clean while this runs). Log: /tmp/vsnap.log
+# usage: tools/thorough_snapshot.sh [tier] [lanes]  — copies /verif (without build output) to /tmp/vsnap,
+# points its crates at the copy, and runs every check's thorough (or given) tier there in `lanes`
+# parallel lanes (default 3), so that work can go on in /verif meanwhile. /repo is used as it is (keep it
+# clean while this runs). Logs: /tmp/vsnap.<lane>.log, merged view: cat /tmp/vsnap.*.log
 tier="${1:-thorough}"
+lanes="${2:-3}"
 S=/tmp/vsnap
 mkdir -p $S
 rsync -a --delete --exclude target --exclude .git --exclude replays /verif/ $S/
 for f in $(find $S -name Cargo.toml -o -name config.toml | grep -v /target/); do sed -i "s#/verif/#$S/#g" $f; done
 cd $S
-: > /tmp/vsnap.log
-for id in $(python3 -c "import json;print(' '.join(c['property_id'] for c in json.load(open('MANIFEST.json'))['checks']))"); do
-  s=$(date +%s)
-  out=$(VERIF_OUT=/tmp/vsnap_out ./check $id --tier $tier 2>&1); rc=$?
-  e=$(date +%s)
-  echo "$id rc=$rc $((e-s))s $(echo "$out" | grep -c KNOWN-FINDING) known | $(echo "$out" | grep -E "^C[0-9]+ (quick|thorough):" | cut -c1-150)" >> /tmp/vsnap.log
-  if [ $rc -ne 0 ]; then echo "$out" | grep -v KNOWN | tail -6 | cut -c1-400 >> /tmp/vsnap.log; fi
+# build everything once, sequentially
+for d in harness harness-async harness-udp; do (cd $S/$d && CARGO_NET_OFFLINE=true cargo build --offline -q 2>/dev/null); done
+ids=$(python3 -c "import json;print(' '.join(c['property_id'] for c in json.load(open('MANIFEST.json'))['checks']))")
+rm -f /tmp/vsnap.*.log
+l=0
+while [ $l -lt $lanes ]; do
+  (
+    : > /tmp/vsnap.$l.log
+    i=0
+    for id in $ids; do
+      if [ $((i % lanes)) -eq $l ]; then
+        s=$(date +%s)
+        out=$(VERIF_OUT=/tmp/vsnap_out/$id ./check $id --tier $tier 2>&1); rc=$?
+        e=$(date +%s)
+        echo "$id rc=$rc $((e-s))s $(echo "$out" | grep -c KNOWN-FINDING) known | $(echo "$out" | grep -E "^C[0-9]+ (quick|thorough):" | cut -c1-150)" >> /tmp/vsnap.$l.log
+        if [ $rc -ne 0 ]; then echo "$out" | grep -v KNOWN | tail -6 | cut -c1-400 >> /tmp/vsnap.$l.log; fi
+      fi
+      i=$((i+1))
+    done
+    echo finished >> /tmp/vsnap.$l.log
+  ) &
+  l=$((l+1))
 done
-echo finished >> /tmp/vsnap.log
+wait
